@@ -59,5 +59,8 @@ func TestMC(t *testing.T) {
 	for _, c := range concConfigs() {
 		scenarios = append(scenarios, concScenario(c))
 	}
+	for _, c := range scriptConfigs() {
+		scenarios = append(scenarios, scriptScenario(c))
+	}
 	mc.Main(t, scenarios, seqs())
 }
